@@ -244,3 +244,24 @@ Proof.
   - intros m IH H. cbn [norm_leaves]. f_equal. induction IH as [|[k x] m Hx _ IHm]; [reflexivity|].
     cbn [no_neg_nan] in H. destruct H as [H1 H2]. cbn [map fst snd] in *. rewrite (Hx H1), (IHm H2). reflexivity.
 Qed.
+
+(* ---- the round trip ------------------------------------------------------------------------------------------------------ *)
+Theorem toml_display_roundtrip three m :
+  wf_tvc (TvTab m) -> tvc_depth (TvTab m) <= LIMIT ->
+  exists d, parse_document (display_document (render_tbl float_text (tv_doc three m)) REmpty) = POk d
+            /\ tvc_of_entries (abs_tbl (doc_root d)) = root_order three m
+            /\ perm_tvc (norm_leaves (TvTab m)) (TvTab (root_order three m)).
+Proof.
+  intros Hwf Hd. destruct (toml_display_parses three m Hwf Hd) as (d & Hp & Ha). exists d. split; [exact Hp|]. split.
+  - rewrite Ha. apply document_comes_back.
+  - apply document_same.
+Qed.
+
+Theorem toml_display_exact_leaves three m :
+  wf_tvc (TvTab m) -> tvc_depth (TvTab m) <= LIMIT -> no_neg_nan (TvTab m) ->
+  exists d, parse_document (display_document (render_tbl float_text (tv_doc three m)) REmpty) = POk d
+            /\ perm_tvc (TvTab m) (TvTab (tvc_of_entries (abs_tbl (doc_root d)))).
+Proof.
+  intros Hwf Hd Hn. destruct (toml_display_roundtrip three m Hwf Hd) as (d & Hp & Ha & Hs). exists d. split; [exact Hp|].
+  rewrite Ha. rewrite <- (norm_leaves_id (TvTab m) Hn) at 1. exact Hs.
+Qed.
